@@ -29,6 +29,7 @@ FEATURES = {
     "zero-rtt": {"zero_rtt": True},
     "offered-other-first": {"offered_other_first": True},
     "keylog-reversed": {"keylog_order": "reversed"},
+    "client-id-prefix-of-server-id": {"cid_alias": "client-prefix-of-server"},
 }
 CID_SHAPES = [(8, 4, 8), (8, 0, 8), (20, 20, 20), (8, 8, 0), (8, 0, 0)]
 
@@ -40,6 +41,8 @@ def configs(tier, seed):
     for suite in (0x1301, 0x1302, 0x1303, 0x1304):
         for fname in feats:
             shapes = CID_SHAPES if (tier == "thorough" or fname == "basic") else [CID_SHAPES[0]]
+            if "cid_alias" in FEATURES[fname]:
+                shapes = [CID_SHAPES[0]]
             for (od, cc, sc) in shapes:
                 f = dict(FEATURES[fname])
                 others = [s for s in (0x1301, 0x1302, 0x1303, 0x1304) if s != suite]
@@ -69,15 +72,22 @@ def expected(dgrams):
     return [(d.from_server, d.stream, d.ts) for d in dgrams if d.stream is not None and len(d.stream) > 0]
 
 
-def assume_cids_prefix_free(c, meta):
+def assume_cids_prefix_free(c, meta, alias=None):
     """No non-empty connection id of the connection is a prefix of another one (random ids collide with negligible probability;
     adversarial aliasing is C04's subject).  Zero-length ids are left alone: they are a legitimate choice."""
     from tlv.sx.core import sym_not
     from tlv.sx.symbytes import as_symbytes
     ids = [as_symbytes(x) for x in meta["cids"] if len(x) > 0]
+    if alias == "client-prefix-of-server":
+        # the opposite, legitimate corner: the client's (shorter) id is the beginning of the server's id
+        a, b = as_symbytes(meta["c_cid"]), as_symbytes(meta["s_cid"])
+        assert 0 < len(a) < len(b)
+        c.assume(a == b[:len(a)])
     for i in range(len(ids)):
         for j in range(len(ids)):
             if i != j and len(ids[i]) <= len(ids[j]) and (i < j or len(ids[i]) < len(ids[j])):
+                if alias and {id(meta["cids"][i]), id(meta["cids"][j])} == {id(meta["c_cid"]), id(meta["s_cid"])}:
+                    continue
                 c.assume(sym_not(ids[i] == ids[j][:len(ids[i])]))
 
 
@@ -108,7 +118,7 @@ def run_config(cfg):
         c = ctx()
         src = SC.SymSrc()
         dgrams, keylog, meta = QS.build(cfg, src)
-        assume_cids_prefix_free(c, meta)
+        assume_cids_prefix_free(c, meta, cfg.get("cid_alias"))
         assume_no_accidental_cid(c, meta, dgrams)
         ep = P.Endpoint(ipv=cfg.get("ipv", 4))
         frames = P.udp_frames(ep, dgrams)
